@@ -2,7 +2,11 @@
 
 package report
 
-import "strconv"
+import (
+	"strconv"
+
+	"github.com/google/pprof/profile"
+)
 
 func init() {
 	vRegister("VerifC17Stacks", VerifC17Stacks)
@@ -108,4 +112,61 @@ func VerifC17Stacks() {
 		}
 	}
 	vObserve(len(ss.Sources), ss.Total, strconv.Itoa(len(ss.Stacks)))
+}
+
+func init() { vRegister("VerifC17ManyStacks", VerifC17ManyStacks) }
+
+// VerifC17ManyStacks: the place index stays exact for profiles with hundreds
+// of stacks: a source that occurs in stack 0 and again 255, 256 or 510 stacks
+// later (the distances at which small per-stack counters wrap) is listed for
+// both, exactly once each.
+func VerifC17ManyStacks() {
+	gap := []int{255, 256, 510}[vChoice("gap", vBound("c17.gaps", 3))]
+	m := &profile.Mapping{ID: 1, Start: 0x1000, Limit: 0x9000, File: "bin", HasFunctions: true}
+	mk := func(id uint64, name string) *profile.Location {
+		f := &profile.Function{ID: id, Name: name, SystemName: name, Filename: name + ".go"}
+		return &profile.Location{ID: id, Mapping: m, Address: 0x1000 + 16*id, Line: []profile.Line{{Function: f}}}
+	}
+	lmain, la, lb := mk(1, "main"), mk(2, "a"), mk(3, "b")
+	p := &profile.Profile{SampleType: []*profile.ValueType{{Type: "samples", Unit: "count"}}, PeriodType: &profile.ValueType{Type: "cpu", Unit: "ns"}, Period: 1,
+		Mapping: []*profile.Mapping{m}, Location: []*profile.Location{lmain, la, lb},
+		Function: []*profile.Function{lmain.Line[0].Function, la.Line[0].Function, lb.Line[0].Function}}
+	n := gap + 2
+	for i := 0; i < n; i++ {
+		leaf := lb
+		if i == 0 || i == gap {
+			leaf = la
+		}
+		p.Sample = append(p.Sample, &profile.Sample{Location: []*profile.Location{leaf, lmain}, Value: []int64{1}})
+	}
+	rpt := NewDefault(p, Options{})
+	ss := rpt.Stacks()
+	vReach("C17.many:built")
+	if len(ss.Stacks) != n {
+		vAssert(false, "C17.many.count: not one stack per sample")
+		return
+	}
+	for k, src := range ss.Sources {
+		seen := map[int]int{}
+		for _, pl := range src.Places {
+			seen[pl.Stack]++
+		}
+		for i, st := range ss.Stacks {
+			contains := false
+			for _, x := range st.Sources {
+				if x == k {
+					contains = true
+				}
+			}
+			want := 0
+			if contains {
+				want = 1
+			}
+			if seen[i] != want {
+				vAssert(false, "C17.many.places: a stack containing a source is not listed exactly once in its place index (profile with hundreds of stacks)")
+				return
+			}
+		}
+	}
+	vObserve(len(ss.Sources))
 }
